@@ -25,20 +25,23 @@ const ModPath = "github.com/oauth2-proxy/oauth2-proxy/v7"
 
 // Program is the type-checked, SSA-built production program: package main and its dependency closure.
 type Program struct {
-	Repo     string
-	GOOS     string
-	Fset     *token.FileSet
-	Main     *packages.Package
-	All      []*packages.Package          // every package in deps(main), including std and third party
-	Mod      map[string]*packages.Package // module packages in deps(main), keyed by short path ("main", "pkg/encryption", ...)
-	SSA      *ssa.Program
-	ModFns   []*ssa.Function // every function (incl. anonymous, excl. synthetic wrappers) whose package is in Mod, sorted
-	byName   map[string]*ssa.Function
-	astFn    map[*ssa.Function]ast.Node
-	cg       *callgraph.Graph
-	allFns   map[*ssa.Function]bool
-	Outside  []string // module packages outside deps(main) (test helpers)
-	unstable map[*ssa.Global]bool
+	Repo   string
+	GOOS   string
+	Fset   *token.FileSet
+	Main   *packages.Package
+	All    []*packages.Package          // every package in deps(main), including std and third party
+	Mod    map[string]*packages.Package // module packages in deps(main), keyed by short path ("main", "pkg/encryption", ...)
+	SSA    *ssa.Program
+	ModFns []*ssa.Function // every function (incl. anonymous, excl. synthetic wrappers) whose package is in Mod, sorted
+	byName map[string]*ssa.Function
+	// Renames lists the reference anchors that were found under another name (see anchors.go).
+	Renames    []string
+	fieldAlias map[string]string
+	astFn      map[*ssa.Function]ast.Node
+	cg         *callgraph.Graph
+	allFns     map[*ssa.Function]bool
+	Outside    []string // module packages outside deps(main) (test helpers)
+	unstable   map[*ssa.Global]bool
 }
 
 // Short strips the module path from a qualified name.
@@ -124,6 +127,7 @@ func Load(repo, goos string) (*Program, error) {
 		p.byName[Short(fn.String())] = fn
 	}
 	sort.Slice(p.ModFns, func(i, j int) bool { return p.ModFns[i].String() < p.ModFns[j].String() })
+	p.applyRenames()
 	return p, nil
 }
 
@@ -158,6 +162,9 @@ func FnPkg(fn *ssa.Function) *types.Package {
 func Name(fn *ssa.Function) string {
 	if fn == nil {
 		return "<nil>"
+	}
+	if n, ok := canon.Load(fn); ok {
+		return n.(string)
 	}
 	return Short(fn.String())
 }
@@ -232,6 +239,16 @@ func (p *Program) Named(qual string) *types.Named {
 
 // Field looks up a struct field object "pkgshort.Type.Field".
 func (p *Program) Field(qual string) *types.Var {
+	if f := p.field(qual); f != nil {
+		return f
+	}
+	if a, ok := p.fieldAlias[qual]; ok {
+		return p.field(a)
+	}
+	return nil
+}
+
+func (p *Program) field(qual string) *types.Var {
 	i := strings.LastIndex(qual, ".")
 	if i < 0 {
 		return nil
